@@ -519,3 +519,27 @@ func (p *printer) expr1(n *Node) {
 		panic(fmt.Sprintf("print: kind %d", n.Kind))
 	}
 }
+
+// FullParen renders n with explicit parentheses around every operator
+// sub-expression (binary, unary, not, pipe).
+func FullParen(n *Node) string {
+	return Print(fullParen(n, true))
+}
+
+func fullParen(n *Node, top bool) *Node {
+	if n == nil {
+		return nil
+	}
+	c := *n
+	c.Kids = make([]*Node, len(n.Kids))
+	for i, k := range n.Kids {
+		c.Kids[i] = fullParen(k, false)
+	}
+	switch n.Kind {
+	case NPipe, NOr, NAnd, NCmp, NArith, NUnary, NNot:
+		if !top {
+			c.Paren = true
+		}
+	}
+	return &c
+}
